@@ -71,7 +71,78 @@ def run_track_labels(x):
     return x
 
 
+# ------------------------------------------------------------------------------- C18
+POSS = [(0, 0), (0, 2), (3, 4)]
+
+
+def gen_cand_points(args):
+    import random
+    T, D = args["T"], args["D"]
+    rnd = random.Random(args.get("seed", 0))
+    dets = [(t, p) for t in range(T) for p in range(1, len(POSS) + 1)]
+    for bits in range(1, 2 ** len(dets)):
+        X = [d for k, d in enumerate(dets) if (bits >> k) & 1]
+        if args.get("shuffle"):
+            rnd.shuffle(X)
+        for sc in args.get("scales", [[1, 1]]):
+            yield {"pts": [list(d) for d in X], "D": D, "sc": sc}
+
+
+def run_cand_points(x):
+    from fractions import Fraction
+    from funtracks.candidate_graph import compute_graph_from_points_list
+    sc = x["sc"]
+    unit = sc == [1, 1]
+    # with a non-unit scale the points are given in voxel coordinates = world / scale
+    pts = np.array([[t, Fraction(POSS[p - 1][0], sc[0]), Fraction(POSS[p - 1][1], sc[1])] for t, p in x["pts"]], dtype=float)
+    g = compute_graph_from_points_list(pts, x["D"], scale=None if unit else [1, *sc])
+    nodes = []
+    for n, a in g.nodes(data=True):
+        y, xx = [Fraction(float(v)).limit_denominator(64) for v in a["pos"]]
+        nodes.append([int(n), int(a["time"]), y.numerator, y.denominator, xx.numerator, xx.denominator])
+    x["nodes"] = nodes
+    x["edges"] = [[int(u), int(v)] for u, v in g.edges]
+    # the TLA+ side multiplies Poss by sc; here world = voxel * scale = Poss, so report scale 1
+    x["sc"] = [1, 1]
+    return x
+
+
+def gen_cand_seg(args):
+    T, PX = args["T"], args["PX"]
+    per_frame = []
+    for t in range(T):
+        labs = [0, 2 * t + 1, 2 * t + 2]
+        per_frame.append([list(v) for v in itertools.product(labs, repeat=PX)])
+    for combo in itertools.product(*per_frame):
+        for D, sx in args["variants"]:
+            yield {"seg": [list(f) for f in combo], "D": D, "sx": sx}
+
+
+def run_cand_seg(x):
+    from fractions import Fraction
+    from funtracks.candidate_graph import compute_graph_from_seg
+    seg = np.array(x["seg"], dtype=np.uint16)
+    T, PX = seg.shape
+    sx = x["sx"]
+    g = compute_graph_from_seg(seg.reshape(T, 1, PX), x["D"], iou=True, scale=None if sx == 1 else [1, 1, sx])
+    nodes = []
+    for n, a in g.nodes(data=True):
+        y, xx = [Fraction(float(v)).limit_denominator(64) for v in a["pos"]]
+        area = Fraction(float(a["area"])).limit_denominator(64)
+        nodes.append([int(n), int(a["time"]), area.numerator if area.denominator == 1 else -1,
+                      y.numerator, y.denominator, xx.numerator, xx.denominator])
+    x["nodes"] = nodes
+    edges = []
+    for u, v, a in g.edges(data=True):
+        f = Fraction(float(a.get("iou", -1))).limit_denominator(64)
+        edges.append([int(u), int(v), f.numerator, f.denominator])
+    x["edges"] = edges
+    return x
+
+
 PARTS = {
+    "cand_points": (gen_cand_points, run_cand_points),
+    "cand_seg": (gen_cand_seg, run_cand_seg),
     "labels_unique": (gen_labels_unique, run_labels_unique),
     "track_labels": (gen_track_labels, run_track_labels),
 }
